@@ -6,6 +6,7 @@
 package c15
 
 import (
+	"encoding/json"
 	"errors"
 	"fmt"
 	"os"
@@ -146,7 +147,7 @@ func genCase(t *rapid.T) Case {
 		case k < 19:
 			c.Ops = append(c.Ops, Op{Kind: "snap"})
 		default:
-			op := Op{Kind: "tamper", Tamper: rapid.SampledFrom([]string{"delete", "truncate", "shape", "stale"}).Draw(t, "tamper")}
+			op := Op{Kind: "tamper", Tamper: rapid.SampledFrom([]string{"delete", "truncate", "shape", "stale", "typed"}).Draw(t, "tamper")}
 			op.Permille = rapid.IntRange(0, 999).Draw(t, "permille")
 			op.Shape = rapid.SampledFrom(shapes).Draw(t, "shape")
 			c.Ops = append(c.Ops, op)
@@ -243,7 +244,20 @@ func runCase(c Case) (evid.Result, error) {
 			}
 		}
 		if known != len(served) {
-			return evid.Failf("foreign-ids", "%s: %d ids served, %d belong to known fractions", step, len(served), known)
+			all := map[model.ID]bool{}
+			for _, docs := range w.fracDocs {
+				for _, d := range docs {
+					all[d.ID] = true
+				}
+			}
+			var foreign []model.ID
+			for id := range served {
+				if !all[id] {
+					foreign = append(foreign, id)
+				}
+			}
+			sort.Slice(foreign, func(i, j int) bool { return foreign[i].Less(foreign[j]) })
+			return evid.Failf("foreign-ids", "%s: %d ids served, %d belong to known fractions; never ingested: %v (%d raw ids in the answer)", step, len(served), known, foreign, len(r.IDs))
 		}
 		if len(absent) > 300 {
 			absent = absent[:300]
@@ -534,6 +548,34 @@ func runCase(c Case) (evid.Result, error) {
 				}
 			case "shape":
 				_ = os.WriteFile(cachePath, []byte(op.Shape), 0o660)
+			case "typed":
+				// well-formed JSON in which one field of one real entry has the wrong type: the
+				// decoder reports an error, and the file has to be ignored as a whole
+				var m map[string]map[string]any
+				if b, err := os.ReadFile(cachePath); err == nil && json.Unmarshal(b, &m) == nil && len(m) > 0 {
+					names := make([]string, 0, len(m))
+					for n := range m {
+						names = append(names, n)
+					}
+					sort.Strings(names)
+					e := m[names[op.Permille%len(names)]]
+					keys := make([]string, 0, len(e))
+					for k := range e {
+						keys = append(keys, k)
+					}
+					sort.Strings(keys)
+					if len(keys) > 0 {
+						k := keys[(op.Permille/7)%len(keys)]
+						if _, isString := e[k].(string); isString {
+							e[k] = 7
+						} else {
+							e[k] = "x"
+						}
+						if b, err := json.Marshal(m); err == nil {
+							_ = os.WriteFile(cachePath, b, 0o660)
+						}
+					}
+				}
 			case "stale":
 				if haveSnap {
 					_ = os.WriteFile(cachePath, snapshot, 0o660)
